@@ -567,10 +567,12 @@ func (mem *CListMempool) ReapMaxBytesMaxGas(maxBytes, maxGas int64) types.Txs {
 
 		// Check total gas requirement.
 		// If maxGas is negative, skip this check.
-		// Since newTotalGas < masGas, which
-		// must be non-negative, it follows that this won't overflow.
+		// totalGas and gasWanted are each at most maxGas, so their sum can
+		// exceed MaxInt64 when maxGas > MaxInt64/2: a sum that wrapped around
+		// is over the limit.
 		newTotalGas := totalGas + memTx.gasWanted
-		if maxGas > -1 && newTotalGas > maxGas {
+		wrapped := memTx.gasWanted > 0 && newTotalGas < totalGas
+		if maxGas > -1 && (wrapped || newTotalGas > maxGas) {
 			return txs[:len(txs)-1]
 		}
 		totalGas = newTotalGas
